@@ -465,6 +465,28 @@ def posterior_case(ctx, rng, idx, special_mode=None):
                       {'values': vals, 'offsets': offsets,
                        'case': case.describe()}, feats)
         return
+    # one work vector overwritten in place between evaluations gives what
+    # the fresh vectors gave
+    w = np.array(xs[0], dtype=float)
+    try:
+        post(w)
+        for j in (1, 2, 0):
+            w[:] = xs[j]
+            vw = post(w)
+            sw = post.evaluateS1(w)[0]
+            ctx.count('in_place_updates')
+            if not (ctx.close(vw, vals[j], rtol=1e-12, scale=sc) and
+                    ctx.close(sw, vals[j], rtol=1e-9, scale=sc)):
+                ctx.violation('value_vs_reference', 'reused_work_vector',
+                              {'fresh vector': vals[j], 'work vector': vw,
+                               's1 score': sw, 'case': case.describe()},
+                              feats)
+                return
+    except Exception as e:      # noqa
+        ctx.violation_exc('evaluation_raises', e,
+                          {'case': case.describe(), 'call': 'work vector'},
+                          feats)
+        return
     # gradient
     x = xs[idx % 3]
     try:
